@@ -1,0 +1,14 @@
+//go:build verif
+
+// Contracts for the deductive verification in /verif (comment-only; compiled code is unaffected).
+package accountmanager
+
+// What the gRPC handlers rely on; the standard implementation is proved to refine these clauses.
+//@ iface Service.Lock(self, ctx, credentials, name)
+//@ requires [unlocked] !prelocked && (forall k [48]byte :: !held[k])
+//@ modifies checkedset, deniedset, tokroot, db, held, prelocked
+//@ ensures [released] !prelocked && (forall k [48]byte :: !held[k])
+//@ iface Service.Unlock(self, ctx, credentials, name, passphrase)
+//@ requires [unlocked] !prelocked && (forall k [48]byte :: !held[k])
+//@ modifies checkedset, deniedset, tokroot, db, held, prelocked
+//@ ensures [released] !prelocked && (forall k [48]byte :: !held[k])
